@@ -146,9 +146,15 @@ def loop_body_nodes(head):
     roots = list(head.ast.body)
     if head.kind == 'loop_head':
         roots.append(head.ast.test)
-    for root in roots:
-        for sub in ast.walk(root):
-            inside.add(id(sub))
+    stack = list(roots)
+    while stack:
+        sub = stack.pop()
+        if id(sub) in inside:
+            continue
+        inside.add(id(sub))
+        stack.extend(ast.iter_child_nodes(sub))
+        # a helper inlined in condition position hangs off its call
+        stack.extend(getattr(sub, '_inline_body', None) or [])
     out = set()
     for node in C.reach([head]):
         if node is head or node.ast is None:
@@ -1069,3 +1075,114 @@ def list_contributions(func, name):
                 name in N.txt(t) for t in sub.targets):
             out.append({'other': sub})
     return out
+
+
+def _fn_body(fdef):
+    body = list(fdef.body)
+    if body and isinstance(body[0], ast.Expr) and isinstance(
+            body[0].value, ast.Constant) and isinstance(
+                body[0].value.value, str):
+        body = body[1:]
+    return body
+
+
+def expr_of_function(fdef):
+    """A tiny pure function as an expression over its parameters:
+    `return E`, or `if T: return A [else:] return B` -> `A if T else B`.
+    Returns the expression or None."""
+    body = _fn_body(fdef)
+    if len(body) == 1 and isinstance(body[0], ast.Return) and \
+            body[0].value is not None:
+        return body[0].value
+    if body and isinstance(body[0], ast.If) and len(body[0].body) == 1 and \
+            isinstance(body[0].body[0], ast.Return) and \
+            body[0].body[0].value is not None:
+        first = body[0]
+        other = None
+        if len(first.orelse) == 1 and isinstance(first.orelse[0],
+                                                 ast.Return) and \
+                len(body) == 1:
+            other = first.orelse[0].value
+        elif not first.orelse and len(body) == 2 and \
+                isinstance(body[1], ast.Return):
+            other = body[1].value
+        if other is not None:
+            return ast.IfExp(test=first.test, body=first.body[0].value,
+                             orelse=other)
+    return None
+
+
+def inline_expr_call(index, func, call):
+    """The value of ``call`` as an expression in the caller's terms when
+    the callee is a tiny pure function (nested in func, in its module, or a
+    static/plain method) - else None."""
+    import copy
+    fdef = None
+    if isinstance(call.func, ast.Name):
+        nested = func.nested() if hasattr(func, 'nested') else {}
+        if call.func.id in nested:
+            fdef = nested[call.func.id].raw
+    if fdef is None:
+        callee = index.resolve_call(func, call)
+        if callee is not None:
+            fdef = callee.raw
+    if fdef is None:
+        return None
+    expr = expr_of_function(fdef)
+    if expr is None:
+        return None
+    params = [a.arg for a in fdef.args.args]
+    if params and params[0] in ('self', 'cls') and \
+            isinstance(call.func, ast.Attribute):
+        params = params[1:]
+    if len(params) != len(call.args) or call.keywords:
+        return None
+    env = dict(zip(params, call.args))
+    return N.subst(copy.deepcopy(expr), env)
+
+
+def sort_key_tuple(index, func, call):
+    """(key function FuncInfo | None, parameter name, tuple expression) of a
+    sorted(..., key=K) call inside func, K a lambda, a nested function, a
+    module-level function or a method."""
+    keyf = kwarg(call, 'key')
+    keyfunc, param, tup = None, None, None
+    if isinstance(keyf, ast.Lambda):
+        param = keyf.args.args[0].arg
+        tup = keyf.body
+    elif isinstance(keyf, ast.Name) and keyf.id in func.nested():
+        keyfunc = func.nested()[keyf.id]
+    elif isinstance(keyf, (ast.Name, ast.Attribute)):
+        res = index.resolve_expr(func.module, keyf)
+        if res and res[0] == 'func':
+            keyfunc = res[1]
+        elif isinstance(keyf, ast.Attribute) and func.cls is not None and \
+                N.txt(keyf.value) in ('self', func.cls.name):
+            keyfunc = index.find_method(func.cls, keyf.attr)
+    if keyfunc is not None:
+        params = [p for p in keyfunc.params() if p not in ('self', 'cls')]
+        param = params[0] if params else None
+        rets = [s for s in walk_no_nested(keyfunc.node)
+                if isinstance(s, ast.Return)]
+        tup = rets[0].value if len(rets) == 1 else None
+    return keyfunc, param, tup
+
+
+def placed_first(index, func, expr, param):
+    """expr orders placed instances before pending ones: 0 if p.server
+    else 1 / not p.server / p.server is None, directly or through a tiny
+    helper."""
+    if isinstance(expr, ast.Call):
+        inner = inline_expr_call(index, func, expr)
+        if inner is not None:
+            expr = inner
+    if isinstance(expr, ast.IfExp) and \
+            isinstance(expr.body, ast.Constant) and \
+            isinstance(expr.orelse, ast.Constant):
+        if N.txt(expr.test) == '%s.server' % param:
+            return expr.body.value < expr.orelse.value
+        if N.txt(expr.test) in ('not %s.server' % param,
+                                '%s.server is None' % param):
+            return expr.body.value > expr.orelse.value
+    return N.txt(expr) in ('not %s.server' % param,
+                           '%s.server is None' % param)
